@@ -291,6 +291,10 @@ func extractZip(zipFile, dest string) error {
 		}
 		defer fs.Close()
 
+		// Archives need not carry entries for the directories of their files.
+		if err := os.MkdirAll(filepath.Dir(path), 0755); err != nil {
+			return err
+		}
 		w, err := os.Create(path)
 		if err != nil {
 			return err
